@@ -38,5 +38,12 @@ def run(repo, tier) -> Result:
     from .c01 import formula_functions
 
     check_state("C15", res, repo, formula_functions(repo))
+    # with a lifespan the retained list is short: windows start at candle 0 all the time, so the window helpers must reach it; and
+    # candles leave the list only through trim_candles, after collapse and conversion (append adds, it never filters)
+    from ..driver import check_append_order
+    from .c17 import check_movement_contracts
+
+    check_movement_contracts("C15", res, repo)
+    check_append_order("C15", res, repo, parts=("manager",))
     check_fill("C15", res, repo)
     return res
